@@ -28,45 +28,87 @@ func init() {
 
 // resolverModel locates the functions of the reference resolver by role.
 type resolverModel struct {
-	refFn      *ssa.Function // contains the Loader call
+	refFn      *ssa.Function // resolves one reference: takes the referring *Resolved; the Loader is called in it or in a helper it calls
 	loaderCall *ssa.Call
-	docFn      *ssa.Function // resolves one document: creates the Resolved, fills the cache
+	loaderPath []ssa.CallInstruction // call sites from refFn down to the function that contains the Loader call (empty when it is refFn itself)
+	loaderArg  ssa.Value             // the URI given to the Loader, as a value of refFn
+	docFn      *ssa.Function         // resolves one document: creates the Resolved, fills the cache
 	rsParam    *ssa.Parameter
 }
 
+// loaderFI: the Loader call as a family instruction of refFn.
+func (m *resolverModel) loaderFI() famInstr { return famInstr{I: m.loaderCall, Path: m.loaderPath} }
+
 func (c *Ctx) resolverModel(rule string) *resolverModel {
 	m := &resolverModel{}
+	var loaderFn *ssa.Function
 	for _, fn := range c.Closure(rule, "RES").Sorted() {
 		core.EachInstr(fn, func(i ssa.Instruction) {
 			if call, ok := i.(*ssa.Call); ok && c.isLoaderCall(call) {
 				if m.loaderCall != nil && m.loaderCall != call {
 					c.R.Bad(rule, "loader-call:second", c.pos(call), "more than one call through ResolveOptions.Loader: the at-most-once argument covers a single call site")
 				}
-				m.refFn, m.loaderCall = fn, call
+				loaderFn, m.loaderCall = fn, call
 			}
 		})
 	}
-	if m.refFn == nil {
+	if loaderFn == nil {
 		c.R.Unresolved(rule, "the call through ResolveOptions.Loader")
 		return nil
 	}
+	// the reference resolver is the function that takes the referring *Resolved: the Loader call may sit in
+	// a helper it calls (climb through single-call-site helpers)
+	hasResolved := func(fn *ssa.Function) bool {
+		for _, p := range fn.Params {
+			if c.isPkgNamed(p.Type(), "Resolved") {
+				return true
+			}
+		}
+		return false
+	}
+	cur := loaderFn
+	for hops := 0; hops < 3 && !hasResolved(cur) && cur.Parent() == nil && c.P.OnlyStaticCallers(cur); hops++ {
+		sites := c.P.CallIndex().Sites[cur]
+		if len(sites) != 1 {
+			break
+		}
+		m.loaderPath = append([]ssa.CallInstruction{sites[0]}, m.loaderPath...)
+		cur = sites[0].Parent()
+	}
+	m.refFn = cur
+	c.roles["role:reference-resolver"] = m.refFn
+	m.loaderArg = upValue(m.loaderCall.Call.Args[0], m.loaderPath)
 	for _, p := range m.refFn.Params {
 		if c.isPkgNamed(p.Type(), "Resolved") {
 			m.rsParam = p
 		}
 	}
-	// the document resolver: static callee of refFn that returns *Resolved
-	core.EachInstr(m.refFn, func(i ssa.Instruction) {
-		if call, ok := i.(*ssa.Call); ok {
-			if callee := call.Call.StaticCallee(); callee != nil && c.P.InPkg(callee) && callee.Signature.Results().Len() == 2 && c.isPkgNamed(callee.Signature.Results().At(0).Type(), "Resolved") {
-				m.docFn = callee
-			}
+	// the document resolver: a function called from the reference resolver's family that returns a *Resolved
+	// and enters it in a table of documents (map to *Resolved)
+	for _, fi := range c.familyInstrs(m.refFn) {
+		call, ok := fi.I.(*ssa.Call)
+		if !ok {
+			continue
 		}
-	})
+		callee := call.Call.StaticCallee()
+		if callee == nil || !c.P.InPkg(callee) || callee.Signature.Results().Len() != 2 || !c.isPkgNamed(callee.Signature.Results().At(0).Type(), "Resolved") {
+			continue
+		}
+		fills := false
+		core.EachInstr(callee, func(j ssa.Instruction) {
+			if mu, ok := j.(*ssa.MapUpdate); ok && c.isMapTo(mu.Map.Type(), "Resolved") {
+				fills = true
+			}
+		})
+		if fills {
+			m.docFn = callee
+		}
+	}
 	if m.docFn == nil {
 		c.R.Unresolved(rule, "document resolver (callee of the reference resolver returning *Resolved)")
 		return nil
 	}
+	c.roles["role:document-resolver"] = m.docFn
 	return m
 }
 
@@ -154,9 +196,9 @@ func ruleC03LoaderOnMiss(c *Ctx) {
 	if m == nil {
 		return
 	}
-	arg := m.loaderCall.Call.Args[0]
+	arg := m.loaderArg
 	var missLocal, missCache bool
-	for _, g := range guardsOf(m.loaderCall) {
+	for _, g := range famGuards(m.loaderFI()) {
 		x, k, equal, ok := eqConst(g)
 		if !ok || !k.IsNil() || !equal {
 			continue
@@ -182,15 +224,15 @@ func ruleC03LoaderOnMiss(c *Ctx) {
 	c.R.Check(missCache, rule, "miss:loader-cache", c.pos(m.loaderCall), "the Loader is called only when the URI is not in the loader cache", "the Loader call is not guarded by a failed lookup of the same URI in the loader cache: a document can be requested more than once")
 	// the loaded document is resolved under the same URI
 	okSame := false
-	core.EachInstr(m.refFn, func(i ssa.Instruction) {
-		if call, ok := i.(*ssa.Call); ok && call.Call.StaticCallee() == m.docFn {
+	for _, fi := range c.familyInstrs(m.refFn) {
+		if call, ok := fi.I.(*ssa.Call); ok && call.Call.StaticCallee() == m.docFn {
 			for _, a := range call.Call.Args {
-				if a == arg {
+				if upValue(a, fi.Path) == arg {
 					okSame = true
 				}
 			}
 		}
-	})
+	}
 	c.R.Check(okSame, rule, "resolved-under-loaded-uri", c.pos(m.loaderCall), "the loaded document is resolved (and cached) under the URI it was requested with", "the loaded document is resolved under a different URI than the one given to the Loader: the cache key would not match later lookups")
 	// the URI given to the loader has its fragment cleared
 	cleared := false
@@ -199,7 +241,7 @@ func ruleC03LoaderOnMiss(c *Ctx) {
 			if fa, ok := r.(*ssa.FieldAddr); ok && core.StructField(fa.X.Type(), fa.Field).Name() == "Fragment" && fa.Referrers() != nil {
 				for _, r2 := range *fa.Referrers() {
 					if st, ok := r2.(*ssa.Store); ok {
-						if s, ok := constString(st.Val); ok && s == "" && core.Dominates(st, m.loaderCall) {
+						if s, ok := constString(st.Val); ok && s == "" && core.Dominates(st, m.loaderFI().Top()) {
 							cleared = true
 						}
 					}
@@ -504,7 +546,7 @@ func ruleC03RefURIResolved(c *Ctx) {
 	if m == nil {
 		return
 	}
-	arg, ok := m.loaderCall.Call.Args[0].(*ssa.Alloc)
+	arg, ok := m.loaderArg.(*ssa.Alloc)
 	if !ok {
 		c.R.Unknown(rule, "lookup-uri", c.pos(m.loaderCall), "the URI given to the Loader is not a local copy")
 		return
